@@ -80,6 +80,11 @@ def counter_case(draw, tier):
         lab = [f"n{i}" for i in range(n)]
     focal = draw(st.integers(0, n - 1))
     ak = draw(st.lists(st.integers(0, n - 1).filter(lambda v: v != focal), max_size=n - 1, unique=True))
+    style = draw(st.sampled_from(["plain", "plain", "with_focal", "repeated"]))
+    if style == "with_focal":
+        ak = ak + [focal]  # e.g. ak = list(G.nodes())
+    elif style == "repeated" and ak:
+        ak = ak + [ak[0]]
     return {"kind": "counter", "n": n, "edges": [[lab[a], lab[b]] for a, b in edges], "nodes": lab,
             "focal": lab[focal], "ak": [lab[v] for v in ak]}
 
